@@ -14,7 +14,10 @@ A->Bi->BiBj over the non-directive components and every directive paired with so
 Each step = generated files removed, `cythonize(..., cache=<dir>)` in a fresh forked process.
 Oracle after EVERY step: all generated artefacts (.c/.cpp/.h/_api.h/...) are byte-identical to what an
 UNCACHED `cythonize(cache=False)` of the same vector produces in the same directory.  A component whose
-change leaves the uncached output unchanged may hit or miss freely.
+change leaves the uncached output unchanged may hit or miss freely.  If a step differs although nothing was
+served from the cache, the uncached compilation is repeated (up to 10 times): when two uncached outputs of
+the vector differ the compiler itself is nondeterministic there - recorded (evidence
+uncached_output_nondeterministic, WARN line) and left to C42, not reported as a cache violation.
 
 cython.inline: components code text, text inside a str / bytes / f-string literal, argument
 type, language_level, cython_compiler_directives (cdivision, cpow, language_level-as-directive); histories A->B->A
@@ -418,11 +421,16 @@ def run_history(arg):
                     dir_dependent = fn2 is None or ref2 != ref
                     ref, fn, diff = ref2, fn2, diff2
                     if fn is not None and not hits:
-                        # no cache hit and still different: is the uncached compiler deterministic on this vector at all?
-                        ref3, info3 = _build(tree, vec, modules, None)
-                        if ref3 and ref3 != ref2:
-                            fn, diff = None, None
-                            dir_dependent = 'nondeterministic'
+                        # Nothing was served from the cache: two REAL compilations of one vector differ.  Before blaming
+                        # the cache path, find out whether the uncached compiler is deterministic on this vector at all:
+                        # up to 10 more uncached compilations in this directory; as soon as two uncached outputs differ the
+                        # difference is a determinism defect (C42's property) - counted, not a C48 violation.
+                        for _k in range(10):
+                            ref3, info3 = _build(tree, vec, modules, None)
+                            if ref3 and ref3 != ref2:
+                                fn, diff = None, None
+                                dir_dependent = 'nondeterministic'
+                                break
             st = {'status': 'ok' if fn is None else 'mismatch', 'hits': hits, 'digest': _digest(ref), 'file': fn, 'diff': diff,
                   'dir_dependent': dir_dependent}
             if fn is not None:
@@ -701,6 +709,9 @@ def run(ctx):
             no_effect.append(label)
         elif r['effect']:
             effective.append(label)
+    if nondeterministic:
+        ctx.log('WARN: uncached compilation of the same vector in the same directory is not deterministic for %r - '
+                'attributed to C42 (deterministic compilation), not counted as a cache violation' % sorted(set(nondeterministic)))
     ctx.log('cythonize cache: %d histories, %d steps, %d cache hits, %d components change the output, %d do not, %d rejected'
             % (len(hists), transitions, hits_total, len(effective), len(no_effect), len(rejected)))
 
